@@ -93,6 +93,31 @@ Fixpoint wfb (am : list (option name)) (cm : list name) (a : ast) {struct a} : b
   | AMethod recv _ args => wfb am cm recv && forallb (wfb am cm) args
   end.
 
+(* the two requirements of wf that Generate does not check (Gen.gen_check): constants are
+   first-order, and a closure literal's own name is not among its OuterIdents (the parser never
+   produces that: AddThis intercepts the name before AddArgs can record it) *)
+Fixpoint side_ok (a : ast) : bool :=
+  match a with
+  | AConst v => fo v
+  | AIdent _ => true
+  | ALet _ v b => side_ok v && side_ok b
+  | AIf c t e => side_ok c && side_ok t && side_ok e
+  | ASwitch v cases d =>
+      side_ok v && side_ok d && forallb (fun c => side_ok (fst c) && side_ok (snd c)) cases
+  | ATry t c => side_ok t && side_ok c
+  | AUnary _ x => side_ok x
+  | AOp _ x y => side_ok x && side_ok y
+  | AClosure _ body outer _ this =>
+      match this with [] => true | _ => negb (mem_name this outer) end && side_ok body
+  | AList l => forallb side_ok l
+  | AIndex l i => side_ok l && side_ok i
+  | AMap m => forallb (fun e => side_ok (snd e)) m
+  | AMember m _ => side_ok m
+  | ACall fn args => side_ok fn && forallb side_ok args
+  | AStatic _ args => forallb side_ok args
+  | AMethod recv _ args => side_ok recv && forallb side_ok args
+  end.
+
 (* ---------- related values and outcomes ---------- *)
 
 (* reference value / generator value.  Closures: same parameters and body; every captured name of
